@@ -1087,6 +1087,53 @@ def mixed_target_sets(res, scratch):
         os.chdir(old)
 
 
+def deep_neighbours(res, scratch):
+    """Two files too deeply nested for the visitor, then a healthy one, in ONE run: what happens to each is what happens to it alone — a file the visitor
+    gives up on does not change the limits the next file is scanned under (seeded change C04-m14 raised the recursion limit around the walk without
+    try/finally: after one failed walk the next deep file was scanned instead of skipped).  The references are taken first, in this order, on purpose."""
+    import sys as _sys
+    from bandit.core import config as b_config, manager as b_manager
+    d = os.path.join(scratch.root, "deepn")
+    os.makedirs(d)
+    files = {"a_problem.py": "x = 1" + "+1" * 2800 + "\n", "b_deep.py": "import pickle\ny = 1" + "+1" * 2300 + "\n", "c_attr.py": "import marshal\nz = a" + ".b" * 1500 + "\n",
+             "d_healthy.py": "import subprocess\nsubprocess.Popen(c, shell=True)\n"}
+    for nm, body in files.items():
+        with open(os.path.join(d, nm), "w") as fh:
+            fh.write(body)
+
+    def scan(names):
+        linecache.clearcache()
+        C.take_log()
+        m = b_manager.BanditManager(b_config.BanditConfig(), "file")
+        try:
+            m.discover_files([os.path.join(d, n) for n in names]); m.run_tests()
+        except BaseException as e:  # noqa
+            return {"escaped": "%s: %s" % (type(e).__name__, str(e)[:100])}
+        C.take_log()
+        out = {}
+        for n in names:
+            p_ = os.path.join(d, n)
+            out[n] = {"scanned": p_ in m.files_list, "skipped": [r for f, r in m.skipped if f == p_], "findings": sorted((r.test_id, r.lineno) for r in m.results if r.fname == p_)}
+        return out
+    limit0 = _sys.getrecursionlimit()
+    refs = {}
+    for n in ("d_healthy.py", "c_attr.py", "b_deep.py", "a_problem.py"):      # healthy and shallower first
+        refs.update(scan([n]))
+    for order in (["a_problem.py", "b_deep.py", "c_attr.py", "d_healthy.py"], ["c_attr.py", "a_problem.py", "d_healthy.py", "b_deep.py"]):
+        got = scan(order)
+        res.case(("deep-neighbours", tuple(order)), True)
+        res.count("deep-neighbours")
+        if "escaped" in got:
+            res.violation("a run over deeply nested files did not complete", {"files": {k: v[:60] + "…" for k, v in files.items()}, "order": order, "exception": got["escaped"]})
+            continue
+        diff = {n: {"alone": refs[n], "in_this_run": got[n]} for n in order if got[n] != refs[n]}
+        if diff or _sys.getrecursionlimit() != limit0:
+            res.violation("a file is treated differently (scanned / skipped / findings) because of a deeply nested file scanned before it, or the interpreter's recursion limit is left changed",
+                          {"files": {k: v[:60] + "… (%d chars)" % len(v) for k, v in files.items()}, "order": order, "differences": diff,
+                           "recursion_limit_before_after": [limit0, _sys.getrecursionlimit()]})
+            _sys.setrecursionlimit(limit0)
+
+
 # ----------------------------------------------------------------------------- entry point
 def run(res, ctx):
     import warnings
@@ -1137,6 +1184,7 @@ def _run(res, ctx):
                 for dbg in (False, True):
                     alone(scratch, hsrc, ign, dbg)
         # ---- (0) directory targets next to explicitly named files
+        deep_neighbours(res, scratch)
         mixed_target_sets(res, scratch)
         # ---- (1) fault enumeration
         for label, scn in enumeration(thorough):
